@@ -33,11 +33,12 @@ theorem C10_names_unique (rows : List Row) (apps : AppsCfg) (files : List File) 
     ((globRead rows apps files).map (·.name)).Nodup := globRead_nodup rows apps files
 
 /-- **Only documented files are auto-loaded**: top-level files, files below `scripts`, and `apps/<a>.py` /
-`apps/<a>/__init__.py` of *configured* apps – and an auto-loaded app carries exactly its configuration. -/
+`apps/<a>/__init__.py` of *configured* apps (an empty yaml entry, value `none`, counts as configured) – and an
+auto-loaded app carries exactly its configuration value. -/
 theorem C10_autoload_sound (apps : AppsCfg) (files : List File) (e : Entry)
     (h : e ∈ globRead loadRows apps files) (ha : e.autoload = true) (hedge : e.path ≠ ["apps", "__init__"]) :
     isAutoPath apps e.path = true ∧
-      (isUnder "apps" e.name = true → e.appCfg = apps.lookup (e.name.getD 1 "") ∧ e.appCfg.isSome = true) := by
+      (isUnder "apps" e.name = true → apps.lookup (e.name.getD 1 "") = some e.appCfg) := by
   obtain ⟨r, hr, f, _, hm, _, hcase⟩ := (globRead_from loadRows apps files h).row
   have hp : e.path = f.path := by
     rcases hcase with ⟨_, c, _, rfl⟩ | ⟨_, rfl⟩ <;> rfl
@@ -174,6 +175,22 @@ example : CompleteHyps [mkCtx ["file", "a"] ["a"] 1 [["modules", "m"]] false 0, 
     · simp [mkCtx, root2] at hr
     · exact .step (c := mkCtx ["file", "a"] ["a"] 1 [["modules", "m"]] false 0) (by decide) (by simp [mkCtx]) hm
   · simp [mkCtx] at hi
+
+/-- **Counterexample (finding C10-F6): an app with an EMPTY yaml entry cannot be switched off.**  `apps/x/__init__.py` was
+loaded while `x:` was configured with an empty entry (configuration value `none`).  After the entry is removed
+`glob_read_files` still registers the file – through the unguarded `apps/*/**/*.py` row, not auto-loaded, configuration
+`none` (the entry `mkEnt …` below; that this is what the real `glob_read_files` yields is replayed by the harness, fixed
+family) – so the loaded context does not differ from the table and the plan deletes nothing, although the app is no longer
+configured (`isAutoPath` is false, the docs promise that removing the configuration disables the app).  With a
+non-empty value (`some 0`) the same removal does delete the context. -/
+theorem C10_unconfigured_empty_entry_cex :
+    isAutoPath [] ["apps", "x", "__init__"] = false ∧
+    (plan 3 [{ mkCtx ["apps", "x"] ["apps", "x", "__init__"] 1 [] false 0 with appCfg := none }]
+        [mkEnt ["apps", "x"] ["apps", "x", "__init__"] 1 false] .default).map (·.del) = some [] ∧
+    (plan 3 [{ mkCtx ["apps", "x"] ["apps", "x", "__init__"] 1 [] false 0 with appCfg := some 0 }]
+        [mkEnt ["apps", "x"] ["apps", "x", "__init__"] 1 false] .default).map (fun p => p.del.contains ["apps", "x"])
+        = some true := by
+  decide
 
 /-- **The spec column printed by the driver is the spec.**  `Spec.discardedList` (what `verifdrv` prints as `disc=`
 and the harness compares with its own oracle) contains only contexts that `Spec.Disc` discards, and – once the
